@@ -91,6 +91,31 @@ theorem inv_run {α} (ops : List (Op α)) : Inv (ops.foldl step ([] : Store α))
   | nil => intro s h; exact h
   | cons op ops ih => intro s h; exact ih _ (inv_step s op h)
 
+theorem inv_run_from {α} (ops : List (Op α)) (s : Store α) (h : Inv s) : Inv (ops.foldl step s) := by
+  induction ops generalizing s with
+  | nil => exact h
+  | cons op ops ih => exact ih _ (inv_step s op h)
+
+/-- A lookup in a well-formed store finds only entries of the same question. -/
+theorem lookup_inv {α} (s : Store α) (hs : Inv s) (q₂ : Query) (e : Entry α)
+    (h : lookup s q₂ = some e) : SameQuestion e.storedBy q₂ := by
+  unfold lookup at h
+  split at h
+  · cases h
+  · rename_i hk
+    simp only [Option.map_eq_some_iff] at h
+    obtain ⟨p, hp, rfl⟩ := h
+    have hmem := List.mem_of_find?_eq_some hp
+    have hkey := List.find?_some hp
+    obtain ⟨h1, h2⟩ := hs p hmem
+    have hq2 : cacheable q₂ = true := by
+      cases hc : cacheable q₂
+      · exact absurd (by unfold msgKey; simp [hc]) hk
+      · rfl
+    have : msgKey p.2.storedBy = msgKey q₂ := by
+      rw [← h1]; simpa using hkey
+    exact msgKey_injective _ _ h2 hq2 this
+
 /-- **C04 (hit).** After any sequence of stores and flushes, an entry found
 for query `q₂` was stored by a query asking the same question with the same
 flags. (Exactness of the real concurrent store is C11.) -/
@@ -112,6 +137,84 @@ theorem hit_same_question {α} (ops : List (Op α)) (q₂ : Query) (e : Entry α
     have : msgKey p.2.storedBy = msgKey q₂ := by
       rw [← h1]; simpa using hkey
     exact msgKey_injective _ _ h2 hq2 this
+
+/-! ## Cache lives: dump and load
+
+`Model.C04.Reach loadKey` are the stores reachable when dumps of reachable stores are
+loaded (at start-up or through the API) with the key function `loadKey` applied to the
+dumped key bytes. -/
+
+theorem inv_loadDump {α} (d : List (Bytes × Entry α)) : ∀ s : Store α, Inv s →
+    (∀ p ∈ d, p.1 = msgKey p.2.storedBy ∧ cacheable p.2.storedBy = true) →
+    Inv (loadDump (fun k => k) s d) := by
+  induction d with
+  | nil => intro s hs _; exact hs
+  | cons p d ih =>
+    intro s hs hd
+    show Inv (loadDump (fun k => k) ((p.1, p.2) :: s.filter (fun x => x.1 != p.1)) d)
+    apply ih
+    · intro x hx
+      rcases List.mem_cons.mp hx with rfl | hx
+      · exact hd p (by simp)
+      · exact hs x (List.mem_filter.mp hx).1
+    · intro x hx
+      exact hd x (List.mem_cons_of_mem _ hx)
+
+theorem inv_reach {α} (s : Store α) (h : Reach (fun k => k) s) : Inv s := by
+  induction h with
+  | fresh => intro p hp; cases hp
+  | op s o _ ih => exact inv_step s o ih
+  | load s s₀ d _ _ hsub ihs ih₀ => exact inv_loadDump d s ihs (fun p hp => ih₀ p (hsub p hp))
+
+/-- **C04 (reload, any load key that is the identity).** Over all histories of stores,
+flushes, dumps and loads: an entry found for `q₂` was stored for the same question. -/
+theorem reload_hit_same_question_id {α} (s : Store α) (h : Reach (fun k => k) s) (q₂ : Query) (e : Entry α)
+    (hl : lookup s q₂ = some e) : SameQuestion e.storedBy q₂ :=
+  lookup_inv s (inv_reach s h) q₂ e hl
+
+/-- The source says that `writeDump` records the entry's own key and `readDump` stores
+the entry under exactly the dumped key bytes: the load key function read from the
+facts exists and is the identity. -/
+theorem dump_load_key_is_dumped_key :
+    ∃ k, dumpLoadKey Gen.Facts.c04DumpWritesKey Gen.Facts.c04DumpLoadKeepsKey = some k ∧ ∀ b : Bytes, k b = b :=
+  ⟨fun k => k, by unfold dumpLoadKey; exact if_pos (by decide), fun _ => rfl⟩
+
+/-- **C04 (reload).** `hit_same_question` across cache lives, for the load key function
+the source has now: whatever was stored, flushed, dumped and loaded, in whatever order
+and into whichever instance, an entry found for `q₂` was stored for the same question
+with the same flags. -/
+theorem reload_hit_same_question {α} (k : Bytes → Bytes)
+    (hk : dumpLoadKey Gen.Facts.c04DumpWritesKey Gen.Facts.c04DumpLoadKeepsKey = some k)
+    (s : Store α) (h : Reach k s) (q₂ : Query) (e : Entry α)
+    (hl : lookup s q₂ = some e) : SameQuestion e.storedBy q₂ := by
+  have hid : k = fun b => b := by
+    unfold dumpLoadKey at hk
+    split at hk
+    · cases hk; rfl
+    · cases hk
+  subst hid
+  exact reload_hit_same_question_id s h q₂ e hl
+
+/-- Why the load key must be the dumped key itself: a loader that guesses the layout
+of a key from its bytes re-files entries of well-formed current keys. Witness: the
+answer stored for `{a., type A, class 0x0478}` (class high byte = name length + 2) is,
+after one dump and load with `upgradeOld`, found for `{x\x02a., type A, class IN}`. -/
+def qOddClass : Query := ⟨false, 0, 1, false, false, false, 1, 0x0478, [97, 46]⟩
+def qVictim : Query := ⟨false, 0, 1, false, false, false, 1, 1, [0x78, 2, 97, 46]⟩
+theorem guessed_layout_is_wrong :
+    ∃ (s : Store Nat) (q : Query) (e : Entry Nat), Reach upgradeOld s ∧ lookup s q = some e ∧
+      ¬ SameQuestion e.storedBy q := by
+  refine ⟨loadDump upgradeOld [] [(msgKey qOddClass, ⟨qOddClass, 7⟩)], qVictim, ⟨qOddClass, 7⟩, ?_, by decide, ?_⟩
+  · refine Reach.load [] (step [] (.store qOddClass 7)) _ Reach.fresh (Reach.op [] _ Reach.fresh) ?_
+    intro p hp
+    simp only [List.mem_singleton] at hp
+    subst hp
+    decide
+  · intro h
+    exact absurd h.1 (by decide)
+
+example : lookup (loadDump (fun k => k) [] [(msgKey qOddClass, (⟨qOddClass, 7⟩ : Entry Nat))]) qVictim = none := by decide
+example : lookup (loadDump (fun k => k) [] [(msgKey qOddClass, (⟨qOddClass, 7⟩ : Entry Nat))]) qOddClass = some ⟨qOddClass, 7⟩ := by decide
 
 /-! Non-vacuity: concrete cacheable queries; the pre-fix collision pairs now differ. -/
 def qA : Query := ⟨false, 0, 1, false, false, false, 1, 1, [3, 119, 119, 119, 0]⟩
